@@ -2,6 +2,7 @@
 //! input  = W|tag:hex,...|tag,tag,...|VER|tag=hex;...   whole_font: provider tables, tag list requested, and what
 //!                                                       whole_font hands to the builder (`-|-` = must fail)
 //!        | S|fixture-relative-path|gid,gid,...      subset::subset on a fixture font (judge only)
+//!        | Z|index|prefixhex|blockhex               whole_font over a synthetic WOFF2 font of the C11 generator (judge only)
 //!        | I|fixture-relative-path|c1,c2,...        variations::instance (user coords, raw 16.16) (judge only)
 //! output = ok:FILEHEX | err:E | panic
 use allsorts::binary::read::ReadScope;
@@ -22,6 +23,11 @@ use avh::harness_main;
 use std::borrow::Cow;
 use std::collections::HashMap;
 use std::panic::{catch_unwind, AssertUnwindSafe};
+
+/// the C11 harness as a source of synthetic WOFF2 fonts (transformed glyf / hmtx, collections)
+#[path = "c11.rs"]
+#[allow(dead_code, unused_imports, unused_variables, unused_mut)]
+mod c11;
 
 struct MapProvider {
     tables: HashMap<u32, Vec<u8>>,
@@ -232,6 +238,39 @@ pub fn run(input: &str) -> String {
                 Err(_) => "err".to_string(),
             }
         }
+        "Z" => {
+            // whole_font over the tables a WOFF2 decoder hands out (reconstructed glyf / loca / head / hmtx)
+            let idx: usize = parts[1].parse().unwrap();
+            let mut file = unhex(parts[2]);
+            let block = unhex(parts[3]);
+            let comp = c11::brotli_stored(&block);
+            if file.len() >= 24 {
+                file[20..24].copy_from_slice(&(comp.len() as u32).to_be_bytes());
+            }
+            file.extend(&comp);
+            let fd = match ReadScope::new(&file).read::<FontData<'_>>() {
+                Ok(f) => f,
+                Err(_) => return "err".to_string(),
+            };
+            let p = match fd.table_provider(idx) {
+                Ok(p) => p,
+                Err(_) => return "err".to_string(),
+            };
+            let tags: Vec<u32> = p.table_tags().unwrap_or_default();
+            match subset::whole_font(&p, &tags) {
+                Ok(b) => {
+                    // the synthetic fonts are not complete fonts (no cmap, arbitrary component ids, hmtx passed
+                    // through as generated): only the clauses the WOFF2 reconstruction itself is responsible
+                    // for are judged: head.indexToLocFormat / loca / glyf agreement
+                    let flags: Vec<String> = consistency(&b, 1)
+                        .into_iter()
+                        .filter(|f| f.starts_with("loca-") || f == "glyf-unreadable" || f == "head-or-maxp-unreadable" || f == "reload-failed")
+                        .collect();
+                    format!("ok:{}:{}", hex(&b), flags.join("+"))
+                }
+                Err(_) => "err".to_string(),
+            }
+        }
         "I" => {
             let data = fixture(parts[1]);
             let fd = match ReadScope::new(&data).read::<FontData<'_>>() {
@@ -406,6 +445,16 @@ pub fn gen(rng: &mut Rng) -> String {
                 }
             }
             format!("S|{}|{}", f, g.iter().map(|x| x.to_string()).collect::<Vec<_>>().join(","))
+        }
+        4 => {
+            // an undamaged synthetic WOFF2 font from the C11 generator
+            loop {
+                let line = c11::gen_case(rng);
+                let f: Vec<&str> = line.split('|').collect();
+                if f[0] == "font" && f.len() == 5 && f[4] != "-" {
+                    return format!("Z|{}|{}|{}", f[1], f[2], f[3]);
+                }
+            }
         }
         1 => {
             let (f, n) = *rng.pick(VAR_FONTS);
